@@ -1,6 +1,7 @@
 package worker
 
 import (
+	"encoding/json"
 	"fmt"
 	"testing"
 	"time"
@@ -34,6 +35,23 @@ func genC16(seed uint64, tier string) *world.Scenario {
 		f.Plant.StopThr = f.Plant.StartThr
 		f.Driver = world.DriverSpec{InitMode: 2, InitPwm: 0, AutoPwm: 100, Quant: "mult", K: kernel.Pick(r, 16, 32, 51)}
 		f.StartDelay = world.Dur(time.Duration(r.Range(0, 3000)) * time.Millisecond)
+		// a fan whose PWM map is already known (configured, or left in the database by an
+		// interrupted earlier run) still needs its RPM curve measured
+		switch r.Intn(7) {
+		case 0, 1:
+			m := map[int]int{}
+			for k := 0; k <= 255; k++ {
+				m[k] = world.Quantise(&f.Driver, k)
+			}
+			f.PwmMap = &m
+		case 2:
+			m := map[int]int{}
+			for k := 0; k <= 255; k++ {
+				m[k] = world.Quantise(&f.Driver, k)
+			}
+			b, _ := json.Marshal(m)
+			sc.DB = append(sc.DB, world.DBEntry{Bucket: "fanPwmMap", Key: f.ID, Value: string(b)})
+		}
 		sc.Fans = append(sc.Fans, f)
 		total += 1.5 + 14 + float64(256/f.Driver.K+1) + float64(f.Plant.TauMs)/100
 	}
